@@ -278,6 +278,15 @@ pub fn corpus_c15(tier: Tier, seed: u64) -> Vec<(usize, Layout)> {
     v.extend(sample_choices(seed, 22, n / 2, 320).iter().map(|w| build_layout(&p, w)));
     // systematic: signed fields (plain, arrays, range lists with a piece one bit narrower than the type)
     v.extend(crate::corpus::sys_signed(Tier::Quick).into_iter().step_by(tier.pick(4, 1)));
+    // systematic: complete coverage without default on arbitrary-int and native bases (builder() start value)
+    for b in [1u32, 7, 9, 24, 33, 65, 127, 8, 64, 128] {
+        let h = (b / 2).max(1);
+        if b >= 2 {
+            v.push(crate::corpus::lay(b, vec![crate::corpus::fld("lo", 0, h, crate::corpus::uty(h), Access::RW), crate::corpus::fld("hi", h, b - h, crate::corpus::uty(b - h), Access::RW)]));
+        } else {
+            v.push(crate::corpus::lay(b, vec![crate::corpus::fld("all", 0, 1, FieldTy::Bool, Access::RW)]));
+        }
+    }
     // systematic: builder steps over very long arrays (const evaluation has its own limits)
     for (b, w, k) in [(128u32, 1u32, 128u32), (127, 1, 127), (128, 4, 32), (128, 2, 64), (64, 1, 64), (125, 1, 125), (126, 3, 42)] {
         let ty = if w == 1 && b % 2 == 0 { FieldTy::Bool } else { crate::corpus::uty(w) };
